@@ -38,7 +38,7 @@ comp!(X, reflect_component); // reflected, never part of a rule
 /// Lean side sees: A=0 … F=5.
 pub const MENU: &[&str] = &[
     "1:A", "1:B", "1:C", "1:D", "1:E", "1:F", "2:AB", "2:BC", "2:AC", "3:ABC", "2:AE", "2:DF",
-    "5:A", "0:BC", "2:CD", "4:ABCD", "1:BA",
+    "5:A", "0:BC", "2:CD", "4:ABCD", "1:BA", "2:FD", "3:FAB", "2:EC", "3:AFC",
 ];
 
 fn add_rule(app: &mut App, idx: usize) {
@@ -60,6 +60,11 @@ fn add_rule(app: &mut App, idx: usize) {
         14 => app.replicate_bundle::<(C, D)>(),
         15 => app.replicate_bundle::<(A, B, C, D)>(),
         16 => app.replicate_with_priority(1, (RuleFns::<B>::default(), RuleFns::<A>::default())),
+        // an unregistered / unreflected component in front of reflected ones
+        17 => app.replicate_bundle::<(F, D)>(),
+        18 => app.replicate_bundle::<(F, A, B)>(),
+        19 => app.replicate_bundle::<(E, C)>(),
+        20 => app.replicate_bundle::<(A, F, C)>(),
         _ => panic!("rule index"),
     };
 }
